@@ -435,6 +435,16 @@ impl Writer {
                 )
             })?;
 
+            // Same guard as Block::write: a topic name that does not fit the entry header
+            // is rejected (nothing has been written or published yet), not a panic.
+            if meta_bytes.len() > PREFIX_META_SIZE - 2 {
+                revert_info.release_allocated_blocks();
+                return Err(std::io::Error::new(
+                    std::io::ErrorKind::InvalidData,
+                    "metadata too large",
+                ));
+            }
+
             let mut meta_buffer = vec![0u8; PREFIX_META_SIZE];
             meta_buffer[0] = (meta_bytes.len() & 0xFF) as u8;
             meta_buffer[1] = ((meta_bytes.len() >> 8) & 0xFF) as u8;
